@@ -46,6 +46,7 @@ fn emit_case(out: &mut dyn Write, o: &Opts, c: &Case, hist: &mut BTreeMap<String
         // scheduled for the last four characters
         // (macro / FNC1 prefix codewords are covered by macro_roundtrip / fnc1_roundtrip; ECI designators are not)
         let shaped = c.eci.is_some();
+        let prefixed = c.fnc1 || (c.macros && vh::macro_prefix(&c.data, true, false).0.len() > 0);
         let mut late = false;
         let mut edi = false;
         let mut single = true;
@@ -62,7 +63,7 @@ fn emit_case(out: &mut dyn Write, o: &Opts, c: &Case, hist: &mut BTreeMap<String
             note(hist, "roundtrip_theorem_not_applicable_eci");
         } else if !edi && !late {
             note(hist, "roundtrip_theorem_covers_plan");
-        } else if single {
+        } else if single && !prefixed {
             note(hist, "roundtrip_theorem_covers_plan_single_mode");
         } else if edi {
             note(hist, "roundtrip_theorem_excludes_plan_edifact_mixed");
